@@ -32,8 +32,8 @@ TRUSTED = [
     "Coq 8.16.1 kernel and vm_compute; no axioms; no extraction",
 ]
 # crafted variants of harness/src/c09.rs whose contents.plist / layercontents.plist entries are not
-# plain, distinct names: refused at load since 59e280a, 8d15b4b, 83f6c18
-MUST_BE_REJECTED = {0, 1, 2, 3, 6, 7, 8, 9, 10}
+# plain names, distinct without regard to case: refused at load since 59e280a, 8d15b4b, 83f6c18, f6784f0
+MUST_BE_REJECTED = {0, 1, 2, 3, 6, 7, 8, 9, 10, 12, 13}
 
 ASSUMPTIONS = [
     "well-formed prior file system (every entry's parent is a directory) for C09_tree_function",
